@@ -445,7 +445,8 @@ def r4_2(rep):
             rep.check(val(vb, a2) == NONE, "var:no-calling-convention", "variables decorate like cdecl (None)", vb.loc(c))
             raw = [p for p in vb.calls(lambda n: callee_of(n).endswith("attributes::link_name")) if p.get("gargs") == "[false]"]
             if rep.check(len(raw) >= 1, "var:link-name-push", "link_name::<false>(..) is pushed (found %d)" % len(raw), vb.loc(vb.root)):
-                p = raw[0]
+                mangled = [x for x in raw if "Var::link_name" not in vb.canon(x["args"][0], 6)]
+                p = mangled[0] if mangled else raw[0]
                 atoms = guard_atoms(vb, p)
                 neg = any("names_will_be_identical_after_mangling" in a[0] and a[1] is False for a in atoms)
                 same = base_local(p["args"][0]) == base_local(a1)
